@@ -251,8 +251,10 @@ def roundtrip_kwn(ctx, nph=2, nel=1, N=2, bins=(2, 3), io="file", psdrec=False):
         ctx.prove("eqAspectRatio restored", same_arr(ctx, m2.eqAspectRatio[p], m.eqAspectRatio[p]))
 
 
-def roundtrip_diff(ctx, nel=2, N=3, R=2, record=True, io="file"):
-    """DiffusionModel.save -> fresh DiffusionModel.load restores t, x and the recorded profiles/times"""
+def roundtrip_diff(ctx, nel=2, N=3, R=2, record=True, io="file", disable=False, post=False, fresh_record=None):
+    """DiffusionModel.save -> fresh DiffusionModel.load restores t, x and the recorded profiles/times -- also when
+    recording was switched off (disableRecording keeps the history recorded so far) before saving, optionally with one
+    more unrecorded step in between, and whether or not the fresh model records"""
     els = ["NI"] + _EL[:nel]
     m = DiffusionModel([0.0, 1.0], N, list(els), ["FCC_A1"], record=record)
     m.t = ctx.real("t", (0.0, 100.0))
@@ -260,7 +262,18 @@ def roundtrip_diff(ctx, nel=2, N=3, R=2, record=True, io="file"):
     if record:
         m._recordedX = ctx.reals("recX", (R, nel, N), (0.0, 1.0))
         m._recordedTime = ctx.reals("recT", R, (0.0, 100.0))
-    m2 = DiffusionModel([0.0, 1.0], N, list(els), ["FCC_A1"], record=record)
+    hist = (m._recordedX, m._recordedTime)
+    if disable:
+        m.disableRecording()
+        ctx.prove("disableRecording keeps the history recorded so far", m._recordedX is hist[0] and m._recordedTime is hist[1])
+    if post:
+        t1 = ctx.real("t1", (100.0, 200.0)); x1 = ctx.reals("x1", (nel, N), (0.0, 1.0))
+        ctx.assume(t1 > 0)
+        m.postProcess(t1, [x1])
+        if disable:
+            ctx.prove("an unrecorded step leaves the recorded history alone",
+                      ctx.all([same_arr(ctx, m._recordedX, hist[0]), same_arr(ctx, m._recordedTime, hist[1])]))
+    m2 = DiffusionModel([0.0, 1.0], N, list(els), ["FCC_A1"], record=record if fresh_record is None else fresh_record)
     if io == "dict":
         m2.fromDict(m.toDict())
     else:
@@ -268,11 +281,14 @@ def roundtrip_diff(ctx, nel=2, N=3, R=2, record=True, io="file"):
             fn = path_of("diff") if io == "file" else path_of("diff.npz")
             m.save(fn)
             m2.load(fn)
-    obs(ctx, "t", sc(m2.t)); obs(ctx, "x", m2.x)
+    obs(ctx, "t", sc(m2.t)); obs(ctx, "x", m2.x); obs(ctx, "recT", m2._recordedTime)
     ctx.prove("current time restored", same(ctx, m2.t, m.t))
     ctx.prove("current profile restored", same_arr(ctx, m2.x, m.x))
     ctx.prove("recorded profiles restored", same_arr(ctx, m2._recordedX, m._recordedX))
     ctx.prove("recorded times restored", same_arr(ctx, m2._recordedTime, m._recordedTime))
+    if record:
+        ctx.prove("every recorded row present after loading", m2._recordedX is not None and m2._recordedTime is not None
+                  and len(m2._recordedX) == len(m._recordedX) >= R and len(m2._recordedTime) == len(m._recordedTime) >= R)
 
 
 def roundtrip_strength(ctx, nph=2, N=2, compressed=True):
@@ -867,7 +883,7 @@ def rebuilt(ctx, ne=2, logX=False, suffix=False):
 
 # ----------------------------------------------------------------------------------------------------------------------
 
-_F_RT = [GenericModel.save, GenericModel.load, PrecipitateModel.toDict, PrecipitateModel.fromDict, PrecipitateBase.toDict,
+_F_RT = [DiffusionModel.disableRecording, DiffusionModel.postProcess, DiffusionModel.record, GenericModel.save, GenericModel.load, PrecipitateModel.toDict, PrecipitateModel.fromDict, PrecipitateBase.toDict,
          PrecipitateBase.fromDict, PrecipitationData.toDict, PrecipitationData.fromDict, DiffusionModel.toDict,
          DiffusionModel.fromDict, PBM.__init__, PBM.reset, StrengthModel.save, StrengthModel.load, PBM.saveRecordedPSD,
          PBM.loadRecordedPSD]
@@ -955,9 +971,15 @@ HARNESSES = [
             params={"quick": [{"nel": 1, "N": 2, "R": 1, "record": True, "io": "file"},
                               {"nel": 2, "N": 3, "R": 2, "record": True, "io": "file.npz"},
                               {"nel": 2, "N": 3, "R": 2, "record": False, "io": "dict"},
-                              {"nel": 2, "N": 2, "R": 3, "record": True, "io": "dict"}],
+                              {"nel": 2, "N": 2, "R": 3, "record": True, "io": "dict"},
+                              {"nel": 1, "N": 2, "R": 2, "record": True, "io": "dict", "disable": True, "fresh_record": True},
+                              {"nel": 2, "N": 2, "R": 3, "record": True, "io": "file", "disable": True, "post": True, "fresh_record": False},
+                              {"nel": 1, "N": 3, "R": 2, "record": True, "io": "file.npz", "disable": True, "post": True, "fresh_record": True},
+                              {"nel": 1, "N": 2, "R": 2, "record": True, "io": "dict", "post": True}],
                     "thorough": [{"nel": e, "N": n, "R": r, "record": rec, "io": io} for e in (1, 2, 3) for n in (2, 5) for r in (1, 4)
-                                 for rec, io in ((True, "file"), (True, "dict"), (False, "dict"))]}),
+                                 for rec, io in ((True, "file"), (True, "dict"), (False, "dict"))] +
+                                [{"nel": e, "N": 3, "R": r, "record": True, "io": io, "disable": True, "post": po, "fresh_record": fr}
+                                 for e in (1, 2) for r in (2, 4) for io in ("file", "dict") for po in (False, True) for fr in (True, False)]}),
     Harness("C20.roundtrip_strength", roundtrip_strength, functions=_F_RT, assumptions=["the strength model was updated at least once (rss, ls, solidStrength are arrays)"],
             stubs=_S_FILE, bounds={"phases": "nph", "history length": "N"},
             params={"quick": [{"nph": 2, "N": 2, "compressed": True}, {"nph": 1, "N": 3, "compressed": False}],
